@@ -12,7 +12,7 @@ open MW MW.Model.Ledger MW.Model.Persist MW.Spec.Persist MW.Spec.Chain MW.Spec.B
 theorem JRW_handle {cfg : Cfg} {G : Block} (E : StaticOK cfg.st G) (cr : Bool) {x : SysQ} {k : Skel} {w : Wid}
     (hJ : JRW cfg G x k w)
     (hon : ∀ b, x.queue.head? = some b → k.chain[b.height]? = some b)
-    (hok : ∀ b, x.queue.head? = some b → ((opBlock (envAt cfg.st k.chain) cfg.n b).run none x.P x.V).ok = true) :
+    (hok : ∀ b, x.queue = [b] → ((opBlock (envAt cfg.st k.chain) cfg.n b).run none x.P x.V).ok = true) :
     JRW cfg G (stepQ cfg.st cfg.n cr x .handle) k w := by
   rcases hJ with hM | ⟨hQ, hgone, hnA⟩
   · exact Or.inl (JRmidW_handle E cr hM hon hok)
@@ -115,11 +115,12 @@ theorem JRW_recvTx {cfg : Cfg} {G : Block} (cr : Bool) {x : SysQ} {k : Skel} {w 
 
 /-- **the handler step of the generalised invariant**: inside a removal window the follower handles the next queued
     notification — a block of the node's chain at ANY height (extension; reorganisation of any depth, also below the
-    height at which the wallet was flagged) whose database transaction succeeds -/
+    height at which the wallet was flagged); success of its database transaction is asked of the LAST queued
+    notification only (a failing one changes nothing) -/
 theorem JTW_handle {cfg : Cfg} {G : Block} (E : StaticOK cfg.st G) (cr : Bool) {x : SysQ} {k : SkelT} {w : Wid}
     (hJ : JTW cfg G x k) (hbusy : k.busy = some (.rem w))
     (hon : ∀ b, x.queue.head? = some b → k.base.chain[b.height]? = some b)
-    (hok : ∀ b, x.queue.head? = some b →
+    (hok : ∀ b, x.queue = [b] →
       ((opBlock (envAt cfg.st k.base.chain) cfg.n b).run none x.P x.V).ok = true) :
     JTW cfg G (stepT cfg cr x (.q .handle)) (skStepT cfg k (.q .handle)) := by
   obtain ⟨hshort, hqs, hcn, hph⟩ := hJ
